@@ -839,23 +839,27 @@ def install_c06_lemmas():
         out.append(("chosen-machine-is-eligible", pc, elig))
         qm = fresh("qm")
         pc1 = pc + [rng(qm, 0, it.nmach(o)), it.mach(o, qm) == m]
+        core = pc.only("operation-of-the-instance", "inst-refs", "inst-jobs", "inst-ops", "inst-machines", "R1-shape",
+                       "R2-next-index", "tracking-advanced", "same-list-objects", "forced-start-time",
+                       "appended-on-chosen-machine", pre=("R8-machine-free", "R8-job-ready", "R8-job-ready-0")) \
+            + [rng(qm, 0, it.nmach(o)), it.mach(o, qm) == m]
         # step 2: the old current time is at most the start of the dispatched operation
-        out.append(("old-now-at-most-the-new-start", pc1 + [is_now(h0, d, t0)], t0 <= start))
+        out.append(("old-now-at-most-the-new-start", core + [is_now(h0, d, t0)], t0 <= start))
         # step 3: every start time the new state offers is >= the old one / the new start
         j, q = fresh("j"), fresh("q")
         o1 = D1.it.op(j, D1.kj(j))
         unfinished1 = z3.And(rng(j, 0, it.J), D1.kj(j) < it.L(j), rng(q, 0, it.nmach(o1)))
         st1 = st_of(D1, o1, D1.it.mach(o1, q))
-        out.append(("other-jobs-start-no-earlier", pc1 + [unfinished1, j != j0],
-                    z3.And(D0.kj(j) == D1.kj(j), D0.kj(j) < it.L(j), st1 >= st_of(D0, o1, it.mach(o1, q)))))
-        out.append(("successor-starts-after-the-dispatched-operation", pc1 + [unfinished1, j == j0], st1 >= start))
+        same = z3.And(D0.kj(j) == D1.kj(j), D0.kj(j) < it.L(j), o1 == it.op(j, D0.kj(j)),
+                      st1 >= st_of(D0, o1, it.mach(o1, q)))
+        out.append(("other-jobs-start-no-earlier", core + [unfinished1, j != j0], same))
+        out.append(("successor-starts-after-the-dispatched-operation", core + [unfinished1, j == j0], st1 >= start))
         # step 4: conclusion, with the pair attaining the new current time named (j, q)
         some1 = z3.Exists([bv("jn")], z3.And(rng(bv("jn"), 0, it.J), D1.kj(bv("jn")) < it.L(bv("jn"))))
         facts = [is_now(h0, d, t0), t0 <= start]
+        # (only the facts established by steps 2 and 3 are needed: the dispatch post-condition is dropped)
         out.append(("current-time-never-decreases:some-job-unfinished",
-                    pc1 + facts + [unfinished1, t1 == st1,
-                                   imp(j != j0, st1 >= st_of(D0, o1, it.mach(o1, q))), imp(j == j0, st1 >= start),
-                                   imp(j != j0, z3.And(D0.kj(j) == D1.kj(j), D0.kj(j) < it.L(j)))],
+                    facts + [unfinished1, t1 == st1, imp(j != j0, same), imp(j == j0, st1 >= start)],
                     t0 <= t1))
         x1 = D1.x(m, D0.nS(m))
         out.append(("current-time-never-decreases:all-finished",
